@@ -147,7 +147,10 @@ func runC19(ctx *Ctx) error {
 		inputs = append(inputs,
 			c19Input{Rows: many, Aggs: []tAgg{{Name: "p", Kind: "percentile", Field: "f", Percents: []float64{0.5, 1, 2, 10, 50, 99, 100}}}},
 			c19Input{Rows: many[:4], Null: true, Aggs: []tAgg{{Name: "c", Kind: "count"}, {Name: "y", Kind: "type", Field: "f"}, {Name: "t", Kind: "term", Field: "f"}}},
-			c19Input{Rows: many[:1], Null: true, Aggs: []tAgg{{Name: "c", Kind: "count"}}})
+			c19Input{Rows: many[:1], Null: true, Aggs: []tAgg{{Name: "c", Kind: "count"}}},
+			// an aggregation that is refused (interval 0) next to others in the same step: the others still summarise every row
+			c19Input{Rows: many, Aggs: []tAgg{{Name: "h", Kind: "histogram", Field: "f", Interval: 0}, {Name: "c", Kind: "count"}, {Name: "t", Kind: "term", Field: "f", Size: 3}, {Name: "y", Kind: "type", Field: "f"}}},
+			c19Input{Rows: many[:30], Aggs: []tAgg{{Name: "c", Kind: "count"}, {Name: "h", Kind: "histogram", Field: "f", Interval: 0}, {Name: "h2", Kind: "histogram", Field: "f", Interval: 10}}})
 		for i := 0; i < ctx.Pick(150, 1500); i++ {
 			in := c19Input{Rows: randAggRows(ctx.Rng), Aggs: randAggs(ctx.Rng)}
 			in.Null = i%15 == 7
